@@ -72,6 +72,8 @@ M = [
  ("r-gate-flag-never-set", ["C01:unanalysable"], IT, "CompareOp::PartialOrd => self.partial_ord = true,", "CompareOp::PartialOrd => self.partial_ord = false,"),
  ("r-entry-level-dropped", ["C04:ES-bounds-trace"], IT, "            if let Some(a) = self.items.get(&kind) {\n                use_bounds = a.push_bounds_to(wcb);\n            }", "            let _ = self.items.get(&kind);"),
  ("r-strip-unknown-names", ["C14:DM-strip-set"], IT, '            "hash" => self.is_match_cmp_attr(CompareOp::Hash),\n            _ => false,', '            "hash" => self.is_match_cmp_attr(CompareOp::Hash),\n            _ => true,'),
+ ("r-dollar-matcher-negated", ["C01:TP-key-apply"], CO, "&|t| matches!(t, TokenTree::Punct(p) if p.as_char() == '$'),", "&|t| matches!(t, TokenTree::Punct(p) if p.as_char() != '$'),"),
+ ("r-output-type-any-assoc", ["C09:DM-output-type"], II, '            if t.ident == "Output" {', '            if t.ident != "Output" {'),
  # benign variants: every listed property must stay silent
  ("benign-rename-local", [], IT, "let use_bounds = e.push_bounds_to(&mut wcb);\n    let mut ctor_args = Vec::new();\n    let mut clone_from_exprs = Vec::new();", "let use_bounds = e.push_bounds_to(&mut wcb);\n    let mut ctor_args = Vec::new();\n    let mut clone_from_exprs = Vec::new();\n    let _unused_marker = 0;"),
 ]
